@@ -157,59 +157,71 @@ def run(ctx):
             fe = flag_edge(c, msg)
             if fe is not None:
                 cands.setdefault(fe[0], []).append((c, fe[1]))
-    # the local name of the parsed message inside Message.parse and how the constructor seeds attributes
-    ctor = [n for n in g.nodes if n.kind == 'stmt' and isinstance(n.ast, ast.Assign) and isinstance(n.ast.value, ast.Call)
-            and res.resolve_call(n.ast.value, parse, count=False).kind == 'ctor'
-            and res.resolve_call(n.ast.value, parse, count=False).cls.qual == 'message.Message']
+    # the parsed message inside Message.parse and how the constructor seeds its attributes - by value terms: the object returned is the
+    # Message(...) constructed there, whatever locals (or helpers, inlined) it passes through
+    from ..sval import strip_ids as _sid, NONE as _NONE, is_const as _is_const, cval as _cval
+    from .. import tq as _tq2
+    PV = ctx.sval(parse)
+    ctor = PV.calls_to(callee='new message.Message')
     ctx.require(len(ctor) == 1, 'anchor vanished: Message(...) construction in Message.parse')
-    mloc = src(ctor[0].ast.targets[0])
-    seed = kwargs_of(ctor[0].ast.value, target=ctx.func('message.Message.__init__'))
+    M = _sid(ctor[0].term)
     minit = ctx.func('message.Message.__init__')
 
     def seeded(attr):
-        """expression the constructor stores into self.<attr>, in terms of parse's locals"""
+        """term the constructor stores into self.<attr>, in terms of parse's values"""
         for n in walk_no_nested(minit.node):
             if isinstance(n, ast.Assign) and any(src(t) == 'self.' + attr for t in n.targets) \
-                    and isinstance(n.value, ast.Name) and n.value.id in seed:
-                return seed[n.value.id]
+                    and isinstance(n.value, ast.Name) and n.value.id in ctor[0].args:
+                return _sid(ctor[0].args[n.value.id])
         return None
 
+    def has_mac(t):
+        return bool(_tq2.find(t, lambda x: x[0] == 'call' and isinstance(x[1], str) and x[1].endswith('Integrity.compute')))
+    fails = [(a_, _sid(tuple(pc_))[:-1]) for pc_, t_, _ in PV.raises for a_ in _sid(tuple(pc_))[-1:] if has_mac(a_[0])]
+    ctx.require(len(fails) >= 1, 'anchor vanished: the raise on a checksum mismatch in Message.parse (value terms)')
+    (mac_atom, fail_pol), mac_reached = fails[0]
+    keyless = _sid(PV.expr('crypto is None'))
+    hdr_only = ('param', parse.call_params()[1]) if len(parse.call_params()) > 1 else None
+    from ..sval import pc_term as _pc_term, norm_pc as _norm_pc, mk_bool as _mk_bool, mk_not as _mk_not
+    mac_pass = mac_atom if not fail_pol else _mk_not(mac_atom)
     npaths = 0
     good_flags = {}
     for attr in sorted(cands):
         s0 = seeded(attr)
-        verdict = True
-        why = None
-        for path in g.paths(follow_exc=False):
-            if path[-1][0].kind != 'exit':
-                continue
-            if path_facts(path) is None:
-                continue
-            edges = set((n.id, lab) for n, lab in path)
-            hdr_only = any(n.kind == 'cond' and src(n.ast) == 'header_only' and lab == 'T' for n, lab in path)
-            if hdr_only:
-                continue
-            npaths += 1
-            mac_passed = (mac.id, passing) in edges
-            nokeys = any(n.kind == 'cond' and src(n.ast) == 'crypto is not None' and lab == 'F' for n, lab in path) or \
-                any(n.kind == 'cond' and src(n.ast) == 'crypto is None' and lab == 'T' for n, lab in path)
-            val = ('seed', s0)
-            for n, lab in path:
-                if n.kind == 'stmt' and isinstance(n.ast, ast.Assign) and any(
-                        src(t) == '%s.%s' % (mloc, attr) for t in n.ast.targets):
-                    val = ('assign', n.ast.value)
-            kind, e = val
-            falsy = isinstance(e, ast.Constant) and e.value in (None, False)
-            from_keys = e is not None and isinstance(e, ast.Name) and e.id == 'crypto'
-            if not mac_passed:
-                if not (falsy or (from_keys and nokeys)):
-                    verdict = False
-                    why = 'a path returns without passing the checksum comparison and leaves %s.%s = %s' % (
-                        mloc, attr, src(e) if e is not None else '?')
-            else:
-                if not from_keys:
-                    verdict = False
-                    why = 'the verified path does not leave the keys in %s.%s' % (mloc, attr)
+
+        def kind(v):
+            if v is None:
+                return 'other'
+            if v == _NONE or (_is_const(v) and _cval(v) is False):
+                return 'clear'
+            return 'keys' if v == ('param', 'crypto') else 'other'
+        sts = [(kind(_sid(v_)), _sid(_pc_term(_norm_pc(tuple(spc))))) for tg, v_, spc, _st, seq in PV.stores if _sid(tg) == ('attr', M, attr)]
+        verdict, why = True, None
+        if any(k == 'other' for k, _ in sts) or kind(s0) == 'other':
+            verdict, why = False, '<message>.%s is given a value that is neither the keys nor empty' % attr
+        elif kind(s0) == 'keys' and all(k == 'clear' for k, _ in sts):
+            cleared = _mk_bool('or', tuple(c for _, c in sts)) if len(sts) > 1 else sts[0][1] if sts else ('const', 'bool', False)
+            left = lambda R: _mk_bool('and', (R, _mk_not(cleared)))                                       # noqa: E731
+        elif kind(s0) == 'clear' and all(k == 'keys' for k, _ in sts) and sts:
+            setc = _mk_bool('or', tuple(c for _, c in sts)) if len(sts) > 1 else sts[0][1]
+            left = lambda R: _mk_bool('and', (R, setc))                                                   # noqa: E731
+        else:
+            verdict, why = False, '<message>.%s is both set and cleared on the way: not decided' % attr
+        if verdict:
+            for pc_, t_, _ in PV.returns:
+                if _sid(t_) != M:
+                    continue
+                npaths += 1
+                R = _sid(_pc_term(_norm_pc(tuple(pc_))))
+                if hdr_only is not None:
+                    R = _mk_bool('and', (R, _mk_not(hdr_only)))
+                K = left(R)
+                # the keys are left on the message only if the checksum comparison passed (or there are no keys at all)
+                if _tq2.entails(((K, True),), _mk_bool('or', (mac_pass, keyless))) is not True:
+                    verdict, why = False, 'a path returns without passing the checksum comparison and leaves the keys in <message>.%s' % attr
+                # ... and they are left whenever it passed
+                elif _tq2.entails(((R, True), (mac_pass, True)) + tuple(mac_reached), K) is not True:
+                    verdict, why = False, 'the verified path does not leave the keys in <message>.%s' % attr
         good_flags[attr] = (verdict, why)
     ctx.stats['U2 normal-return paths of Message.parse examined'] = npaths
     valid = [a for a, (v, _) in good_flags.items() if v]
@@ -219,79 +231,57 @@ def run(ctx):
               detail={a: w for a, (v, w) in good_flags.items()})
 
     # ---------------------------------------------------------------- U2 part 2: process_message
+    # by value terms and path conditions: every store to the IKE_SA and every call that can change it happens under a condition that
+    # implies "there are no keys yet" or "the parsed message carries the indicator" - except the one hand-over to the window code
+    # for a retransmitted IKE_SA_INIT request.  Locals that hold parts of these tests, guard clauses and nesting give the same atoms.
+    from ..sval import const as _const, strip_ids as _sid, NONE as _NONE2, mk_bool as _mkb, mk_not as _mkn
+    from .. import tq as _tq
     mut = self_mutators(ctx)
-    blocked = []
-    for c in g5.nodes:
-        if c.kind != 'cond':
-            continue
-        cp = compare_parts(c.ast)
-        if cp and src(cp[0]) == ckey and isinstance(cp[2], ast.Constant) and cp[2].value is None:
-            lab = 'F' if cp[1] is ast.IsNot else 'T' if cp[1] is ast.Is else None
-            if lab:
-                blocked += [(c.id, lab, m.id) for l2, m in c.succ if l2 == lab]     # no keys: outside the property
-        elif src(c.ast) == ckey:
-            blocked += [(c.id, 'F', m.id) for l2, m in c.succ if l2 == 'F']
-        fe = flag_edge(c, msg)
-        if fe is not None and fe[0] in valid:
-            blocked += [(c.id, fe[1], m.id) for l2, m in c.succ if l2 == fe[1]]      # authenticated
-    R = g5.reach([g5.entry], blocked_edges=blocked, follow_exc=False)
+    PMV = ctx.sval(pm)
+    parsed = PMV.calls_to(qual='message.Message.parse')
+    ctx.require(len(parsed) == 1, 'anchor vanished: the Message.parse call of process_message (value terms)')
+    m_t = _sid(parsed[0].term)
+    me_ = ('param', 'self')
+    keys_t = _sid(parsed[0].args.get('crypto', ('attr', me_, 'peer_crypto')))
+    alts = [_sid(PMV.mk_cmp('is', keys_t, _NONE2)), _mkn(keys_t)]
+    for a_ in valid:
+        ind = ('attr', m_t, a_)
+        alts += [_mkn(_sid(PMV.mk_cmp('is', ind, _NONE2))), ind]
+    protected_goal = _mkb('or', tuple(alts))
+    exempt = _mkb('and', (_sid(PMV.mk_cmp('==', ('attr', m_t, 'exchange_type'), PMV.expr('Message.Exchange.IKE_SA_INIT'))),
+                          ('attr', m_t, 'is_request'),
+                          _sid(PMV.mk_cmp('==', ('attr', m_t, 'message_id'), PMV.expr('self.peer_msg_id - 1')))))
     effects = []
-    for n in g5.nodes:
-        if n.id not in R or n.kind not in ('stmt', 'cond', 'iter'):
-            continue
-        if n.kind == 'stmt' and isinstance(n.ast, (ast.Assign, ast.AugAssign)):
-            tg = n.ast.targets if isinstance(n.ast, ast.Assign) else [n.ast.target]
-            if any(isinstance(x, ast.Attribute) and isinstance(x.ctx, ast.Store) for t in tg for x in ast.walk(t)):
-                effects.append((n, 'store `%s`' % src(tg[0])))
-        for e in n.exprs():
-            if e is None:
-                continue
-            for x in walk_no_nested(e):
-                if isinstance(x, ast.Call):
-                    r = res.resolve_call(x, pm, count=False)
-                    if any(t.qual in mut for t in r.targets):
-                        effects.append((n, 'call `%s`' % src(x)[:50]))
-    ctx.floor('U2 effect sites in process_message', sum(
-        1 for n in g5.nodes if n.kind == 'stmt' and any(isinstance(x, ast.Call) and callee_name(x) in (
-            '_process_request', '_process_response') for e in n.exprs() if e is not None for x in ast.walk(e))), 2)
-    guards = {
-        'is_request': [c for c in g5.nodes if c.kind == 'cond' and src(c.ast) == msg + '.is_request'],
-        'previous-id': [c for c in g5.nodes if c.kind == 'cond' and compare_parts(c.ast) and compare_parts(c.ast)[1] is ast.Eq
-                        and {src(compare_parts(c.ast)[0]), src(compare_parts(c.ast)[2])} == {
-                            msg + '.message_id', 'self.peer_msg_id - 1'}],
-        'ike-sa-init': [c for c in g5.nodes if c.kind == 'cond' and compare_parts(c.ast) and compare_parts(c.ast)[1] is ast.Eq
-                        and src(compare_parts(c.ast)[0]) == msg + '.exchange_type'
-                        and common.exchange_of(compare_parts(c.ast)[2]) == INIT],
-    }
+    for tg, v_, pc_, st_, _seq in PMV.stores:
+        tg = _sid(tg)
+        if tg[0] == 'attr' and tg[1] == me_:
+            effects.append((_sid(tuple(pc_)), 'store `self.%s`' % tg[2], st_, None))
+    for c in PMV.calls:
+        if any(q in mut for q in c.quals):
+            effects.append((_sid(tuple(c.pc)), 'call `%s`' % src(c.node)[:50], c.node, c))
+    ctx.floor('U2 effect sites in process_message', sum(1 for e in effects if e[3] is not None and e[3].name in (
+        '_process_request', '_process_response')), 2)
     nbad = 0
-    for n, what in effects:
-        granted = 'call' in what and '_process_request(' in what
-        if granted:
-            for gname, cs in guards.items():
-                ok = any(n.id not in g5.reach([g5.entry], follow_exc=False,
-                                              blocked_edges=blocked + [(c.id, 'T', m.id) for l2, m in c.succ if l2 == 'T'])
-                         for c in cs)
-                granted = granted and ok
+    for pc_, what, node, c in effects:
+        if _tq.entails(pc_, protected_goal) is True:
+            continue
+        granted = c is not None and c.name == '_process_request' and list(c.args.values())[:1] == [parsed[0].term] \
+            and _tq.entails(pc_, exempt) is True
         if granted:
             ctx.ok('U2', 'the only thing an unprotected message can still obtain is the window code for a retransmitted '
-                   'IKE_SA_INIT request (`%s` under is_request, previous Message ID, IKE_SA_INIT)' % what,
-                   ctx.site(pm, n.ast))
+                   'IKE_SA_INIT request (`%s` under is_request, previous Message ID, IKE_SA_INIT)' % what, ctx.site(pm, node))
         else:
             nbad += 1
             ctx.bad('U2', ('U2', 'unauthenticated-effect', what),
                     'once keys exist, an unprotected (cleartext or unverified) message can reach %s in '
                     'IkeSa.process_message without having passed the checksum comparison' % what,
-                    ctx.site(pm, n.ast))
+                    ctx.site(pm, node), {'condition': [('' if v else 'not ') + _tq.text(a, 120) for a, v in pc_]})
     if not nbad:
-        ctx.ok('U2', 'no store to the IKE_SA and no dispatch is reachable in process_message for a message that did not '
-               'pass the checksum comparison while keys exist (%d blocked edges, %d reachable nodes)' % (
-                   len(blocked), len(R)), ctx.site(pm, pm.node))
+        ctx.ok('U2', 'no store to the IKE_SA and no dispatch happens in process_message for a message that did not pass the checksum '
+               'comparison while keys exist (%d effect sites, each entailed by its path condition)' % len(effects), ctx.site(pm, pm.node))
     # ... and what the window code re-sends for it is the IKE_SA_INIT response only while the IKE_SA_INIT request (Message ID 0) is
     # the last request that was answered: the exemption must insist on Message ID 0, not merely on "the previous ID" - otherwise
     # a cleartext 'IKE_SA_INIT request' carrying the ID of a later exchange is answered with that exchange's stored response
-    from ..sval import const as _const, strip_ids as _sid
-    from .. import tq as _tq
-    PMV = ctx.sval(pm)
     for c in PMV.calls_to(qual='ikesa.IkeSa._process_request'):
         unprot = [a for a in c.pc if a[1] and a[0][0] == 'cmp' and a[0][1] == 'is' and ('const', 'NoneType', None) in a[0][2:]
                   and any(x[0] == 'attr' and x[2] == 'crypto' and x[1][0] != 'param' for x in a[0][2:])]
